@@ -71,7 +71,8 @@ def cases(draw):
         op = {"op": "push", "src": {"kind": "bytesio", "content": {"pat": draw(st.binary(min_size=1, max_size=4)), "n": size}}, "path": path,
               "mtime": draw(st.sampled_from([0, 12345])), "cb": draw(st.sampled_from([None, None, "rec"]))}
     return {"api": draw(st.sampled_from(["sync", "async"])), "device": dev, "dev_tape": draw(sc.dev_tape(16)),
-            "transport": {"flavour": draw(sc.flavour())}, "connect": {}, "ops": [op], "_kind": kind}
+            "transport": {"flavour": draw(sc.flavour()), "wcap": draw(sc.wcap_tape(2000 + (op["src"]["content"]["n"] if op["op"] == "push" else 0), p_none=0.6))},
+            "connect": {}, "ops": [op], "_kind": kind}
 
 
 def reason_recoverable(exc, reason):
